@@ -164,6 +164,16 @@ def _pair_pattern(ctx, f, call: ast.Call):
         return True, "new genomes; fitness kept only for rows equal in every coordinate, NaN otherwise"
     if isinstance(f0, ast.Call) and norm(f0.func) in ("np.full", "np.full_like") and any(norm(a) in ("np.nan", "numpy.nan") for a in f0.args):
         return True, "all fitness values reset to NaN"
+    # positive evidence: one side is a row selection of a population's array, the other a numeric reduction / sort (values no
+    # longer tied to the selected rows)
+    def _rows(e):
+        return isinstance(e, ast.Subscript) and isinstance(e.value, ast.Attribute) and e.value.attr in ("genomes", "fitnesses")
+
+    def _reduction(e):
+        return isinstance(e, ast.Call) and norm(e.func).split(".")[-1] in ("min", "max", "amin", "amax", "sort", "mean", "median", "sum", "nanmin", "nanmax")
+
+    if (_rows(g0) and _reduction(f0)) or (_rows(f0) and _reduction(g0)):
+        return False, f"genomes `{norm(Gr)[:50]}` are rows selected by an index, but the fitnesses `{norm(Fr)[:50]}` are a reduction computed elsewhere: a row no longer carries its own objective value"
     return None, f"genomes `{norm(Gr)[:60]}` and fitnesses `{norm(Fr)[:60]}` are not recognisably co-derived"
 
 
